@@ -154,7 +154,7 @@ class expect(object):
     @staticmethod
     def post(scn, fv, pre, m):
         probs = []
-        if m is not None and "TimeoutSeconds" not in scn.machine and not scn.extra.get("tie_only"):      # (the reference semantics has no execution time limit)
+        if m is not None and "TimeoutSeconds" not in scn.machine and not scn.extra.get("tie_only"):      # (under a time limit the outcome depends on the schedule: C08 compares the canonical one)
             mv = c01.model_view(m)
             if mv["status"] in ("SUCCEEDED", "FAILED"):
                 if fv.get("status") != mv["status"]:
@@ -178,7 +178,7 @@ def run(chk):
     engine_props.start_scenario = lambda scn, redis=False: start_with_failures(scn) if scn.extra.get("fail_payloads") else engine_props.start_scenario_orig(scn, redis=redis)
     scns = scenarios(chk.rng, quick)
     engine_props.run_property(
-        chk, "C06", ["C02", "C03", "C09", "C11", "C06"], scns=scns, n_rand=(5 if quick else 60), expect=expect, skip_multi=False,
+        chk, "C06", ["C02", "C03", "C09", "C11", "C06"], scns=scns, n_rand=(5 if quick else 24), expect=expect, skip_multi=False,
         rule=("Parallel of 2-3 branches under every assignment of failures to branches (one, several, all; task errors and Fail "
               "states, Wait siblings) x no handler / Catch / Retry that then succeeds / Retry that fails again (+Catch) x three "
               "reply-delay profiles; Map of 3 items with every listed failure set x MaxConcurrency 0-2 x with/without Catch; nested "
